@@ -8,7 +8,7 @@ MODE, KINDS = "ns", ("NS",)
 
 
 def walker_check(ck, prop, tier, seed, mode, kinds, proof_ok, what, extra_kinds=()):
-    cases = 3 if tier == "quick" else 40
+    cases = 6 if tier == "quick" else 40
     err, diffs, stats = W.run(mode, seed, cases)
     if err:
         ck.obligation("differential walker run", False, err)
